@@ -39,6 +39,96 @@ PROPS = {
              "accumulator's Verify and by an independent recomputation of the perfect-subtree root from the item list; rapid adds mid-way "
              "flush/recover points. Exploration: lengths above the bound are not covered.",
              "trusts SHA3-256 from goloop's crypto package and the in-memory MapDB", "DESIGN §7 (C27)", shards=4),
+    "C29": P("hbtp", "rapid-generated validator sets and signature vectors (by-construction classes: valid, absent, wrong index, foreign key, other decision, "
+             "unrecoverable) encoded as wire bytes, against a reference predicate",
+             "Every drawn vector is judged by the predicate 'all present entries are validator i's own signature over this decision and 3*present>2n'; "
+             "counts are biased to the 2/3 boundary, both accept and reject are demanded and a panic is a violation. Exploration: n<=10, distinct keys.",
+             "trusts crypto.NewSignature/dcrd for producing valid signatures; duplicate validator keys are not decided", "DESIGN §7 (C29)", shards=8),
+    "C30": P("hnet", "round trip of generated packet sequences through drawn stream chunkings + single-byte substitution must-reject + round-trip oracle on "
+             "arbitrary accepted input (rapid; native go fuzz in thorough)",
+             "Field-exact round trip for payloads up to the 1 MiB maximum under drawn chunkings, through both PacketReader and ReadFrom; every single-byte hit on "
+             "header, payload or digest must be rejected (exact for an FNV-1a single-byte change; length-field hits may end in EOF, also a rejection). Exploration.",
+             "extension bytes/length are not covered by the packet digest and are not mutated; needs hook network/verif_hooks.go", "DESIGN §8 (C30)",
+             fuzz=[("FuzzC30ReadFrom", 120)]),
+    "C31": P("hnet", "model-based stream check over a hook-built SecureConn pair (all AEAD suites) with independently drawn write and read-buffer sizes, key-relation "
+             "checks, single ciphertext-stream mutations",
+             "Concatenation-of-writes model with the io.Reader contract for read buffers down to 1 byte in both directions; pairwise key relations; any byte "
+             "substitution, swap, replay or removal of a frame must yield an error before any byte of the affected frame is handed out. Exploration.",
+             "the two padding header bytes are unauthenticated and excluded; tail truncation not claimed; deterministic session scalars via hook", "DESIGN §8 (C31)"),
+    "C32": P("hnet", "generated (key, session secret, signature/public-key mutation) tuples against an independent SEC1 parser + stdlib ECDSA + independent "
+             "address derivation",
+             "Whenever VerifySignature accepts, an independent verifier must confirm the signature is by the claimed key over this session's secret and that the id is "
+             "that key's address; other-session, other-key, mutated and malformed inputs are all exercised. Exploration.",
+             "trusted base: dcrd curve arithmetic, Go crypto/ecdsa, x/crypto sha3; ECDSA malleability is not decided", "DESIGN §8 (C32)"),
+    "C33": P("hnet", "real onPacket on a hook-built PeerToPeer with generated peers/roles and relay sequences; decision function transcribed from the statement",
+             "Every delivery to the recording callback is checked against the three stated rules (at most one delivery per flooded packet across any relaying peers, "
+             "one-hop only from its source, originator broadcast only from a validator-role peer); entitled-but-dropped packets make the run inconclusive so the "
+             "check cannot pass vacuously. Exploration: sequences <= 30, far below the dedup window.",
+             "peers and roles are set directly through the hook (no handshake or discovery); self-sourced flooded packets not decided", "DESIGN §8 (C33)"),
+    "C12": P("hsvc", "rapid-generated v3 transactions with spelling variants against an independent ICON serialization reference, a 3x JSON<->stored-form round trip "
+             "and single-member metamorphic changes",
+             "Every generated transaction's id equals an independently computed ICON hash, and every field plus signature validity survives repeated conversion to "
+             "the stored form, for both binary and raw-JSON storage; any single signed-member change yields a different, reference-equal id. Exploration over the "
+             "generated domain.",
+             "trusts SHA3 and the harness serializer (cross-checked with the Java SDK in /repo/sdk); JSON numbers/booleans and member names with special characters are "
+             "outside the generated domain", "DESIGN §6 (C12)"),
+    "C13": P("hsvc", "rapid-generated keys, hashes and transactions with 16 signature variants, judged by an independent math/big secp256k1 recovery over the independent tx id",
+             "Acceptance implies the exact signature bytes recover the sender's address over the reference id; genuine signatures are always accepted; malformed, "
+             "foreign-key and foreign-id signatures are rejected on both the JSON and the stored-binary path. Exploration.",
+             "the ECDSA malleable twin and recovery bytes 4..7 are not decided; trusts SHA3", "DESIGN §6 (C13)"),
+    "C14": P("hsvc", "rapid state-machine histories with a map model, retained snapshots and a canonical-rebuild hash reference",
+             "After every operation all retained snapshots, the live state and the state hash agree with the model, and the hash agrees with a fresh canonical rebuild; "
+             "covers Reset, ClearCache, Flush, reload and node caches. Exploration: 6 accounts x 7 keys.",
+             "the hash reference reuses the trie/RLP code on a canonical path (account encoding not re-implemented)", "DESIGN §6 (C14)"),
+    "C17": P("hdata", "rapid state machine vs map model; root vs fresh trie and an independent MPT root (hex-prefix + RLP + SHA3-256)",
+             "Random set/delete/snapshot/flush/reload/ClearCache histories over prefix-sharing keys are compared step by step with a map for lookups, ordered iteration, "
+             "prefix iteration and retained snapshots; the root must equal an independently computed MPT root, so order-independence is checked against a spec-level "
+             "reference. Exploration.",
+             "trusts the in-file reference encoder with goloop's <=32-byte embedding rule; empty values, DB errors and concurrency are not covered", "DESIGN §7 (C17)"),
+    "C18": P("hdata", "rapid; genuine proofs verified by a root-only trie on an empty DB; constructed single-element alterations and foreign-root proofs must be rejected",
+             "Completeness for every sampled stored key from three proof sources; soundness for absent keys and foreign proofs; every single-element alteration and "
+             "other-root proof must be rejected, on fresh and reused verifiers. Exploration.",
+             "trailing appended proof elements are not demanded to fail; a nil-pointer panic of Prove for one absent-key shape is recorded as a label and not judged "
+             "(the statement only says no value is yielded)", "DESIGN §7 (C18)"),
+    "C19": P("hdata", "rapid histories vs overlay+tombstone model on a spied MapDB, including stacked layers",
+             "Every get/has is checked against the model; at each commit or discard the entire underlying store and all layer views are compared key by key, including "
+             "keys never used by the case. Exploration.",
+             "MapDB back-end only; non-empty values only; replay order and concurrency are not covered", "DESIGN §7 (C19)"),
+    "C20": P("hdata", "rapid delivery schedules with injected forgeries vs source-DB model; three state shapes including the real world state",
+             "After every delivery step completion is checked to hold exactly when all source entries are present, and injected unrequested payloads are checked absent "
+             "from every hashed bucket; the final target DB equals the source, has no foreign key, and reopens to the model and the trusted root. Exploration.",
+             "works at merkle.Builder level (the sync2 network layer is not exercised); the harness trie.Object type is trusted", "DESIGN §7 (C20)"),
+    "C21": P("hdata", "rapid tuple pairs with equal concatenation; container state machines vs slices/maps in a shared store",
+             "Injectivity and grouping-independence of the Hash, RLP and PrefixedHash keys and the SplitKeys round trip over typed parts at RLP boundaries; adversarially "
+             "named containers are compared with their reference after every operation. Exploration.",
+             "part bytes are computed by the harness; RawBuilder and raw prefixes of different lengths are excluded by design; hash collisions are assumed away",
+             "DESIGN §7 (C21)"),
+    "C09": P("hexec", "(i) token-scheduled bodies on NewWorldVirtualState/GetFuture against sequential execution on a plain world state (all reads and the final hash); "
+             "(ii) the same generated blocks through real transitions at concurrency 2/4/8 against level 1 and the reference",
+             "Lock-level interleavings of random programs (account read/write/idle locks, world read/write locks, reset, retry) must give identical reads, receipts and "
+             "state hash to one-by-one execution. Exploration: the harness owns three gates per body; Go-scheduler interleavings inside goloop are not enumerated.",
+             "bodies touch only declared accounts and start as the dispatcher's worker does; the reference is the harness body interpreter on goloop's plain WorldState",
+             "DESIGN §6 (C09)"),
+    "C10": P("hexec", "rapid-generated fault-scripted blocks through real transitions at ConcurrencyLevel 1/2/4/8 with an observational receipt-versus-last-attempt "
+             "oracle and a crash journal",
+             "Every generated block either errors or carries exactly the receipts of each transaction's last attempt, in order, across fault positions, fault kinds "
+             "(retryable, retry-exhausted, non-retryable) and both execution modes; a process crash is a violation via the journal. Exploration.",
+             "trusts the harness handler's attempt recorder; goroutine schedules are the Go runtime's; 'recoverable implies success' is measured, not demanded",
+             "DESIGN §6 (C10)"),
+    "C15": P("hfee", "rapid-generated chain configs and blocks of real signed transactions executed by real transitions on MapDB, compared with an accounting model "
+             "built from receipts",
+             "Thousands of blocks with zero, tiny and huge balances, values and limits on the affordability boundaries, step prices 0..1.25e10, in-block price changes, "
+             "failing contract calls and the out-of-balance-at-charge rollback branch; every reachable balance, the treasury delta, the total, non-negativity and "
+             "step bounds are checked per block. Exploration.",
+             "trusts receipts as the reported fee, the repository's test chain fixture and the basic platform (+ optional LegacyBalanceCheck revision bit); fee sharing, "
+             "the parallel executor and external execution engines are excluded", "DESIGN §6 (C15)"),
+    "C16": P("hfee", "rapid-generated programs (mutate storage, balances, flags, events, BTP messages, then fail at a drawn point or inside nested frames) run by a "
+             "programmable contract through the real CallContext over two transports, compared with a frame-survival reference model and the Merkle state hash",
+             "About 1000 failing-after-mutation transactions and ~50 outer-success-with-inner-rollback cases per quick run across all failure statuses, nesting depth "
+             "up to 4 and the fee-charge rollback; the oracle is the whole account-trie hash plus per-key/per-balance diffs plus receipt logs and BTP messages. "
+             "Exploration.",
+             "trusts service/state for building the expected hash (checked by C14) and the harness contract's own record of what it did; sequential executor only; "
+             "no external EE", "DESIGN §6 (C16)"),
 }
 
 # properties not (yet) claimed -> reason
@@ -46,6 +136,8 @@ NOT_APPLICABLE = {}
 
 HOOKS = {
     # /repo path (only compiled with -tags verif) -> canonical copy in /verif/hooks
+    "network/verif_hooks.go": "network_verif_hooks.go",
+    "consensus/verif_hooks_sim.go": "consensus_verif_hooks_sim.go",
 }
 
 
